@@ -394,6 +394,21 @@ def unders_cycle_scripts():
     return out
 
 
+def load_scripts():
+    """`load` of things that cannot be opened as a script: a directory, a missing file, a path through a file, an empty name:
+    the build reports the failure (returns False or a parse error), it does not let the OSError out"""
+    out = []
+    S = core.SCRATCH
+    for target in (S, S + "/", "/", "/proc/self/mem", S + "/no/such/file.flo", "/etc/hostname/x.flo", ".", "..",
+                   "/dev/null/x", '""', "/proc/1/environ", "/root"):
+        for where in ("top", "house", "framer"):
+            L = {"top": ["load %s" % target, "house h", "  framer f be active", "    frame a"],
+                 "house": ["house h", "  load %s" % target, "  framer f be active", "    frame a"],
+                 "framer": ["house h", "  framer f be active", "    load %s" % target, "    frame a"]}[where]
+            out.append(("load", "\n".join(L) + "\n"))
+    return out
+
+
 def name_clash_scripts():
     """names that meet: a named clone whose full name (<framer>_<tag>) is the name of another framer, of the moot itself or
     of a second clone; actors whose instance name (`as ...`) is the name of a builtin actor kind, in frames that conditions
@@ -523,7 +538,7 @@ def run(ctx):
     ctx.extra["refgraph_cases_3_frames_exhaustive"] = len(graphs)
     if not ctx.quick:
         graphs += refgraph_cases(4, nsample=40000, rng=ctx.rng)
-    graphs += marker_scripts() + clone_cycle_scripts() + numeric_slot_scripts() + name_clash_scripts() + unders_cycle_scripts()
+    graphs += marker_scripts() + clone_cycle_scripts() + numeric_slot_scripts() + name_clash_scripts() + unders_cycle_scripts() + load_scripts()
     ctx.shard([{"plans": plans, "n": total // n, "budget": 5.0, "refgraphs": graphs[i::n]} for i in range(n)],
               timeout=ctx.pick(400, 3000))
     for k in ("over", "under", "next", "clone"):
